@@ -71,7 +71,7 @@ def pairwise_cfgs(with_eager=False):
     out = []
     for k, row in enumerate(rows):
         f = dict(zip(factors, row))
-        out.append(Cfg(repl=REPLS[k % len(REPLS)], nums=bool(f['nums']), bools=bool(f['bools']), ips=bool(f['ips']), nss=bool(f['nss']),
+        out.append(Cfg(repl=REPLS[(k + 1) % len(REPLS)], nums=bool(f['nums']), bools=bool(f['bools']), ips=bool(f['ips']), nss=bool(f['nss']),
                        encrypt=bool(f['encrypt']), key=KEY if f['encrypt'] else None, re='^(ssn|name|uf_a)$' if f['re'] else '',
                        eager=(['mydb', 'shop.events'] if f.get('eager') else [])))
     return out
